@@ -29,6 +29,22 @@ def _entries(shape, mode, seed=0):
     raise ValueError(mode)
 
 
+def _layout(X, p):
+    """the same values in another memory layout: Fortran-ordered, or a non-contiguous strided view of a larger buffer
+    (reshape / transpose must not depend on how the caller's array happens to be stored)"""
+    lay = p.get("layout")
+    if not lay or getattr(X, "dtype", None) == object:
+        return X
+    if lay == "F":
+        return np.asfortranarray(X)
+    if lay == "view":
+        big = np.zeros(tuple(2 * s for s in X.shape), dtype=X.dtype)
+        sl = tuple(slice(None, None, 2) for _ in X.shape)
+        big[sl] = X
+        return big[sl]
+    raise ValueError(lay)
+
+
 def _eq(got, exp, what):
     got = np.asarray(got)
     exp = np.asarray(exp)
@@ -72,7 +88,7 @@ def vec_index(p):
     from toqito.matrix_ops import vec
 
     M = _entries(tuple(p["shape"]), p.get("entries", "arange"))
-    got = vec(M)
+    got = vec(_layout(M, p))
     exp = np.empty((M.size, 1), dtype=M.dtype)
     for idx in np.ndindex(*M.shape):
         flat = 0
@@ -119,7 +135,7 @@ def ps_index(p):
 
         Xin = sps.csr_matrix(X)
     else:
-        Xin = X
+        Xin = _layout(X, p)
     dim = _dim_arg(p, rd, cd)
     args = [Xin, list(p["perm"]), dim]
     if not p.get("defaults"):
@@ -288,10 +304,11 @@ def ptrace_index(p):
         dim = int(d[0])
     else:
         dim = None
+    Xin = _layout(X, p)
     if form == "omitted":
-        got = partial_trace(X) if p.get("sys_omitted") else partial_trace(X, sys_arg)
+        got = partial_trace(Xin) if p.get("sys_omitted") else partial_trace(Xin, sys_arg)
     else:
-        got = partial_trace(X, sys_arg, dim)
+        got = partial_trace(Xin, sys_arg, dim)
     exp = R.ref_partial_trace(X, S, d)
     _eq(got, exp, "partial_trace")
 
@@ -382,7 +399,8 @@ def ptranspose_index(p):
         dim = np.array([list(rd), list(cd)])
     else:
         dim = None
-    got = partial_transpose(X, sys_arg, dim) if dim is not None else partial_transpose(X, sys_arg)
+    Xin = _layout(X, p)
+    got = partial_transpose(Xin, sys_arg, dim) if dim is not None else partial_transpose(Xin, sys_arg)
     _eq(got, R.ref_partial_transpose(X, S, rd, cd), "partial_transpose")
 
 
@@ -439,7 +457,8 @@ def realign_index(p):
         dim = int(rd[0])
     else:
         dim = None
-    got = realignment(X, dim) if dim is not None else realignment(X)
+    Xin = _layout(X, p)
+    got = realignment(Xin, dim) if dim is not None else realignment(Xin)
     _eq(got, R.ref_realignment(X, rd, cd), "realignment")
 
 
